@@ -13,10 +13,16 @@
 //! stream 3  the real Relayer::reconstruct_block on a temp-db node with a real
 //!           tx-pool, compared with the model (`check_recon`) and with the
 //!           property text.
+//! stream 4  whole compact block exchanges on the real Relayer (rounds.rs):
+//!           CompactBlock and honest BlockTransactions replies delivered
+//!           through `Relayer::received`, local availability changing between
+//!           the rounds, every GetBlockTransactions decoded; compared with
+//!           Codec/Rounds.v (`check_rounds`) and with the property text.
 #[path = "../../hx-codec/src/gen.rs"]
 mod gen;
 #[path = "../../hx-codec/src/gen_schema.rs"]
 mod gen_schema;
+mod rounds;
 
 use ckb_types::{core, packed, prelude::*};
 use ckb_verification_traits::Verifier;
@@ -580,8 +586,11 @@ mod node {
     }
 
     pub fn start() -> Node {
+        start_with(ckb_chain_spec::consensus::ConsensusBuilder::default().build())
+    }
+
+    pub fn start_with(consensus: ckb_chain_spec::consensus::Consensus) -> Node {
         let tmp = tempfile::Builder::new().prefix("hx-relay").tempdir_in(scratch_dir("C16")).unwrap();
-        let consensus = ckb_chain_spec::consensus::ConsensusBuilder::default().build();
         let (shared, mut pack) = SharedBuilder::with_temp_db().consensus(consensus).build().unwrap();
         let network = dummy_network(&shared, &tmp);
         pack.take_tx_pool_builder().start(network);
@@ -971,7 +980,7 @@ fn stream_reconstruct(rng: &mut Rng, out: &mut Out, thorough: bool) {
 }
 
 fn new_out(dir: &std::path::Path, cap: usize) -> Out {
-    let header = "From CKB Require Import Codec.Molecule gen.Schema Codec.Compact Codec.UnclesVerify.";
+    let header = "From CKB Require Import Codec.Molecule gen.Schema Codec.Compact Codec.UnclesVerify Codec.Rounds.";
     let files: Vec<CaseFile> = (0..SHARDS)
         .map(|i| {
             let mut cf = CaseFile::new(dir, &format!("cases_{:02}", i), header);
@@ -979,6 +988,7 @@ fn new_out(dir: &std::path::Path, cap: usize) -> Out {
             cf.group("frame", "N * N * option N * option N * option N", "check_frame");
             cf.group("recon", "recon_case", "check_recon");
             cf.group("uverify", "uvcase", "check_uvcase");
+            assert_eq!(cf.group("rounds", "rounds_case", "check_rounds"), rounds::G_ROUNDS);
             cf
         })
         .collect();
@@ -1010,10 +1020,28 @@ fn find_case(v: &Value) -> Option<(String, Vec<u8>)> {
     }
 }
 
+/// the first recorded exchange of the rounds stream (impl violation detail or correspondence case)
+fn find_rounds(v: &Value) -> Option<&Value> {
+    match v {
+        Value::Object(m) => {
+            if m.get("stream").and_then(|s| s.as_str()) == Some("rounds") && m.contains_key("exchange") {
+                return Some(v);
+            }
+            m.values().find_map(find_rounds)
+        }
+        Value::Array(a) => a.iter().find_map(find_rounds),
+        _ => None,
+    }
+}
+
 fn replay(path: &str) -> ! {
     let v: Value = serde_json::from_str(&fs::read_to_string(path).unwrap()).unwrap();
     let what = v.get("violations").and_then(|x| x.get(0)).and_then(|x| x.get("what")).cloned();
     println!("replaying first case of {path}; recorded: {}", what.unwrap_or(Value::Null));
+    let first = v.get("violations").and_then(|x| x.get(0)).or_else(|| v.get("cases").and_then(|x| x.get(0)));
+    if let Some(d) = first.and_then(find_rounds) {
+        std::process::exit(if rounds::replay_rounds(d) { 1 } else { 0 })
+    }
     let Some((ty, bytes)) = find_case(&v) else {
         println!("the first case is not a (type, bytes) message case (reconstruct / frame cases are replayed by re-running the harness with the same VERIF_SEED)");
         std::process::exit(1)
@@ -1062,9 +1090,21 @@ fn main() {
     }
     let mut out = new_out(&dir, if thorough { 330_000 } else { 90_000 });
     let mut rng = Rng::new(seed ^ 0xC16);
-    stream_messages(&mut rng, &mut out, thorough);
-    stream_frames(&mut rng, &mut out, thorough);
-    stream_reconstruct(&mut rng, &mut out, thorough);
+    // HX_ONLY=<stream> (development aid): run one stream only
+    let only = std::env::var("HX_ONLY").ok();
+    let want = |s: &str| only.as_deref().map(|o| o == s).unwrap_or(true);
+    if want("messages") {
+        stream_messages(&mut rng, &mut out, thorough);
+    }
+    if want("frames") {
+        stream_frames(&mut rng, &mut out, thorough);
+    }
+    if want("reconstruct") {
+        stream_reconstruct(&mut rng, &mut out, thorough);
+    }
+    if want("rounds") {
+        rounds::stream_rounds(&mut rng.fork(), &mut out, thorough);
+    }
     for (i, cf) in out.files.iter().enumerate() {
         cf.write().unwrap();
         fs::write(dir.join(format!("cases_{:02}.json", i)), serde_json::to_string(&out.descs[i]).unwrap()).unwrap();
@@ -1075,7 +1115,7 @@ fn main() {
         "seed": seed,
         "evaluations": out.evaluations,
         "distinct_nontrivial": out.distinct.len(),
-        "rule": "malformed-dominant byte strings for 32 protocol / consensus message types (valid, valid with extra fields, random, 1-3 stacked byte-level mutations; distinct = distinct (type, bytes)); compress/decompress frames (honest around the 1024 threshold, declared length at/over 8 MiB, wrong declared length, flag byte variants, truncated, extended); compact blocks with 1-8 transactions, arbitrary prefilled indexes (1/5 violating CompactBlockVerifier), received / pool / missing transactions, given / local / missing / invalid uncles, matching and non-matching roots, run through the real Relayer::reconstruct_block on a temp-db node",
+        "rule": "malformed-dominant byte strings for 32 protocol / consensus message types (valid, valid with extra fields, random, 1-3 stacked byte-level mutations; distinct = distinct (type, bytes)); compress/decompress frames (honest around the 1024 threshold, declared length at/over 8 MiB, wrong declared length, flag byte variants, truncated, extended); compact blocks with 1-8 transactions, arbitrary prefilled indexes (1/5 violating CompactBlockVerifier), received / pool / missing transactions, given / local / missing / invalid uncles, matching and non-matching roots, run through the real Relayer::reconstruct_block on a temp-db node; whole exchanges on the real Relayer (CompactBlock, then honest BlockTransactions replies in request order through Relayer::received, 2-8 transactions, 0-3 uncles, 1-4 events, transactions leaving/entering the tx-pool and uncles losing/gaining their status or stored block between the events, new misses below and above the indexes asked before)",
         "distribution": out.stats,
         "samples": out.samples,
         "impl_violations": out.viol,
